@@ -3,6 +3,8 @@
 #[derive(Clone, Debug)]
 pub struct Rng {
     s: [u64; 4],
+    /// byte-driven mode (fuzzing): choices are read from this tape instead of the PRNG; zeros once exhausted
+    tape: Option<(std::sync::Arc<Vec<u8>>, usize)>,
 }
 
 fn splitmix(x: &mut u64) -> u64 {
@@ -16,13 +18,35 @@ fn splitmix(x: &mut u64) -> u64 {
 impl Rng {
     pub fn new(seed: u64) -> Rng {
         let mut x = seed;
-        Rng { s: [splitmix(&mut x), splitmix(&mut x), splitmix(&mut x), splitmix(&mut x)] }
+        Rng { s: [splitmix(&mut x), splitmix(&mut x), splitmix(&mut x), splitmix(&mut x)], tape: None }
+    }
+    /// every choice is decoded from `data` (1, 2, 4 or 8 bytes per choice depending on its range): a coverage-guided
+    /// fuzzer that mutates `data` thereby mutates the generated structure
+    pub fn from_bytes(data: &[u8]) -> Rng {
+        Rng { s: [0; 4], tape: Some((std::sync::Arc::new(data.to_vec()), 0)) }
+    }
+    pub fn tape_exhausted(&self) -> bool {
+        self.tape.as_ref().map(|(d, p)| *p >= d.len()).unwrap_or(false)
+    }
+    fn take(&mut self, n: usize) -> u64 {
+        let (d, p) = self.tape.as_mut().unwrap();
+        let mut x = 0u64;
+        for i in 0..n {
+            if let Some(b) = d.get(*p + i) {
+                x |= (*b as u64) << (8 * i);
+            }
+        }
+        *p += n;
+        x
     }
     /// independent sub-stream
     pub fn fork(seed: u64, stream: u64) -> Rng {
         Rng::new(seed ^ stream.wrapping_mul(0xD1342543DE82EF95).rotate_left(17) ^ 0xA5A5_5A5A_1234_8765)
     }
     pub fn next(&mut self) -> u64 {
+        if self.tape.is_some() {
+            return self.take(8);
+        }
         let r = self.s[1].wrapping_mul(5).rotate_left(7).wrapping_mul(9);
         let t = self.s[1] << 17;
         self.s[2] ^= self.s[0];
@@ -36,6 +60,18 @@ impl Rng {
     /// uniform in 0..n (n>0)
     pub fn below(&mut self, n: u64) -> u64 {
         debug_assert!(n > 0);
+        if self.tape.is_some() {
+            let k = if n <= 0x100 {
+                1
+            } else if n <= 0x1_0000 {
+                2
+            } else if n <= 0x1_0000_0000 {
+                4
+            } else {
+                8
+            };
+            return self.take(k) % n;
+        }
         ((self.next() as u128 * n as u128) >> 64) as u64
     }
     pub fn range(&mut self, lo: usize, hi_incl: usize) -> usize {
